@@ -180,7 +180,8 @@ def lbl1(ctx, lib, trie_insert):
                 o = local.peel(g["origin"])
                 if o[0] == "call" and o[1].endswith("::eq") and guards.edge_truth(g) is True:
                     sides = [local.peel(x) for x in o[2]]
-                    vals = [s for s in sides if s[0] == "call" and s[1] == "grapheme::Grapheme::value"]
+                    vals = [s for s in sides if s[0] == "call" and lib.body(s[1]) is not None and lib.body(s[1]).sig_inputs == ["&grapheme::Grapheme"]
+                            and (lib.body(s[1]).sig_output or "") in ("std::string::String", "&std::vec::Vec<std::string::String>")]
                     if len(vals) == 2 and vals[0] != vals[1] and fi.cfg.edge_dominates(g["block"], g["succ"], bi):
                         ok = True
             if ok:
@@ -188,6 +189,38 @@ def lbl1(ctx, lib, trie_insert):
             else:
                 ctx.violation("LBL-1", (b.path, "HashSet::insert"), "a parent state is recorded without the edge label's value being equal to the partition label's value", b.loc(t.get("line")))
     ctx.floor("LBL-1", "predecessor-set inserts guarded by the label", n, 1)
+
+
+def lbl2(ctx, lib):
+    """LBL-2: wherever the automaton code decides whether two edge labels are the same label (trie insertion, predecessor computation) it compares the labels' *entries*
+    (`chars()`), not their joined text (`value()`): the literal text `\\` + `d` (two entries) and the class token `\\d` (one entry) have the same joined text."""
+    n = 0
+    joined = {b.path for b in lib.bodies if b.sig_inputs == ["&grapheme::Grapheme"] and b.sig_output == "std::string::String" and not b.derived and b.kind == "assoc_fn"}
+    for b in lib.bodies:
+        if b.derived or not b.path.startswith("dfa::"):
+            continue
+        fi = None
+        for bi, t in b.calls():
+            nm = callee_name(t) or ""
+            if not re.search(r"::(?:eq|ne)$", nm) or len(t["args"]) != 2:
+                continue
+            fi = fi or guards.FnInfo.of(b)
+            sides = [local.peel(fi.defs.operand(a)) for a in t["args"]]
+            inner = []
+            for s_ in sides:
+                while s_[0] in ("ref", "deref"):
+                    s_ = local.peel(s_[1])
+                inner.append(s_)
+            if all(x[0] == "call" and x[1] in joined for x in inner):
+                n += 1
+                ctx.violation("LBL-2", (b.path, "labels compared by joined text"),
+                              "two edge labels are taken for the same label when their joined text is equal (%s): the literal text `\\d` (entries `\\`, `d`) then shares an edge with the "
+                              "class token `\\d`, e.g. grex -d -r 11 '\\d\\d' -> ^\\d{2}$, which does not match the test case \\d\\d" % inner[0][1], b.loc(t.get("line")))
+            elif all(x[0] == "call" and lib.body(x[1]) is not None and lib.body(x[1]).sig_inputs == ["&grapheme::Grapheme"]
+                     and (lib.body(x[1]).sig_output or "") == "&std::vec::Vec<std::string::String>" for x in inner):
+                n += 1
+                ctx.ok("LBL-2", "%s:labels compared entry-wise" % b.path, None, b.loc(t.get("line")))
+    ctx.floor("LBL-2", "label identity tests in the automaton code", n, 2)
 
 
 def tri1(ctx, lib):
@@ -236,9 +269,15 @@ def run(ctx):
     qnt1(ctx, lib, roles)
     grpq1(ctx, lib)
     lbl1(ctx, lib, ins)
+    ctx.rule("LBL-2", "label identity in the automaton code is decided on the labels' entries (chars()), never on their joined text (value())")
+    lbl2(ctx, lib)
     from . import counting
     counting.rules(ctx)
     counting.chr1(ctx, lib)
+    # ESC-3 (shared with C01): nested repetitions are escaped at every level the printer prints
+    from .C01 import esc3
+    ctx.rule("ESC-3", "if the grapheme printer is recursive over nested repetitions, escaping descends as deep, on every path")
+    esc3(ctx, lib)
     from . import memo
     memo.rules(ctx)
     memo.check(ctx, lib)
